@@ -88,6 +88,8 @@ type Pair struct {
 
 	// OnRead observes every completed Read of end r (after the content oracle).
 	OnRead func(r int, n int, err error)
+	// VecWrites counts the writes issued through WriteBuffers with several buffers.
+	VecWrites int
 }
 
 func mkAddr(str bool, host byte, port int) net.Addr {
@@ -237,8 +239,17 @@ func (p *Pair) Pump() bool {
 				return false
 			}
 			if !p.Cfg.Opts[w].Stream {
-				for off := 0; off < n; off += p.MSS[w] {
-					f.chunks = append(f.chunks, f.sentBytes+int64(min(n, off+p.MSS[w])))
+				// every buffer handed over is cut at the mss on its own
+				sizes := f.app.VecCuts(f.wi, n)
+				if sizes == nil {
+					sizes = []int{n}
+				}
+				base := f.sentBytes
+				for _, sz := range sizes {
+					for off := 0; off < sz; off += p.MSS[w] {
+						f.chunks = append(f.chunks, base+int64(min(sz, off+p.MSS[w])))
+					}
+					base += int64(sz)
 				}
 			}
 			f.sentBytes += int64(n)
@@ -258,7 +269,18 @@ func (p *Pair) Pump() bool {
 			FillPayload(b, f.sid, f.sentBytes)
 			sess := p.Sess[w]
 			f.wWritable, f.wEvents = sess.VerifWritable(), s.Events
-			f.wcall = s.Go("Write", func() (int, error, any) { n, err := sess.Write(b); return n, err, nil })
+			if sizes := f.app.VecCuts(f.wi, n); sizes != nil {
+				v := make([][]byte, 0, len(sizes))
+				rest := b
+				for _, sz := range sizes {
+					v = append(v, rest[:sz:sz])
+					rest = rest[sz:]
+				}
+				p.VecWrites++
+				f.wcall = s.Go("WriteBuffers", func() (int, error, any) { n, err := sess.WriteBuffers(v); return n, err, nil })
+			} else {
+				f.wcall = s.Go("Write", func() (int, error, any) { n, err := sess.Write(b); return n, err, nil })
+			}
 			issued = true
 		}
 		// reader
